@@ -83,6 +83,10 @@ def _range_op(rng, g, meths):
             exmin, exmax, rng.choice(["pos", "kw"])]
 
 
+FAR = [2 ** 31, -2 ** 31 - 1, 2 ** 32, -2 ** 32, 2 ** 32 + 1, 2 ** 33,
+       -2 ** 33, 2 ** 63 - 1, -2 ** 63, 2 ** 64, -2 ** 64]
+
+
 def _probes(rng, n_items):
     out = []
     n = n_items
@@ -93,10 +97,19 @@ def _probes(rng, n_items):
         elif r < 0.18:
             out.append(["bool"])
         elif r < 0.55:
-            out.append(["idx", rng.randint(-n - 2, n + 1)])
+            i = rng.randint(-n - 2, n + 1)
+            if rng.random() < 0.06:
+                # far outside: an index that does not fit a C int / a
+                # Py_ssize_t must still be an IndexError, not be cut down
+                i = rng.choice(FAR) + rng.choice([0, 0, i])
+            out.append(["idx", i])
         elif r < 0.8:
             a = rng.choice([None, rng.randint(-n - 2, n + 2)])
             b = rng.choice([None, rng.randint(-n - 2, n + 2)])
+            if rng.random() < 0.05:
+                a = rng.choice([a, rng.choice(FAR)])
+                b = rng.choice([b, rng.choice(FAR)]) if a is None or \
+                    abs(a) < 2 ** 31 else b
             sub = None
             if rng.random() < 0.3:
                 sub = ["idx", rng.randint(-3, 3)] if rng.random() < 0.5 else \
